@@ -21,7 +21,7 @@ from tally import expr_parser, merchant_engine, merchant_utils
 from tally.merchant_engine import parse_merchants, calculate_specificity
 from tally.modifier_parser import check_all_conditions
 
-TICK = 64.0
+TICK = 512.0      # amounts travel as integer ticks of 1/512 (dyadic: every float operation on them is exact)
 XE = expr_parser.ExpressionError
 
 
@@ -104,19 +104,47 @@ def dyn_value(fn):
     return ['scalar', bool(v), str(v)]
 
 
+def own_variables(engine, txn, ds):
+    """Top-level variables, evaluated by the harness (NOT by engine._evaluate_variables): each expression on its own,
+    without the other variables; an ExpressionError leaves the variable undefined."""
+    out = {}
+    for name, expr in engine.variables.items():
+        try:
+            out[name] = expr_parser.evaluate_transaction(expr, copy.deepcopy(txn), data_sources=ds)
+        except XE:
+            pass
+    return out
+
+
+def own_lets(rule, txn, gv, ds):
+    """Rule-level let bindings, evaluated by the harness (NOT by engine._evaluate_let_bindings), in order, later bindings
+    seeing earlier ones; a binding that raises ExpressionError is bound to None — only that binding is inapplicable,
+    the rule is still evaluated (C01/C08)."""
+    if not rule.let_bindings:
+        return gv
+    variables = dict(gv)
+    for name, expr in rule.let_bindings:
+        try:
+            variables[name] = expr_parser.evaluate_transaction(expr, copy.deepcopy(txn), variables=variables, data_sources=ds)
+        except XE:
+            variables[name] = None
+    return variables
+
+
 def engine_oracle(engine, txn, ds):
-    """What the evaluator says about each rule for this transaction (txn is not mutated)."""
+    """What the evaluator says about each rule for this transaction, computed with expr_parser only — none of the
+    engine's helper methods is used, so a change inside them shows up as a difference to match()."""
     o = {'gv_crash': False, 'cond': [], 'dyn': [], 'fields': []}
     try:
-        gv = engine._evaluate_variables(copy.deepcopy(txn), ds)
-    except Exception as e:  # noqa  (ExpressionError is swallowed inside)
+        gv = own_variables(engine, txn, ds)
+    except Exception as e:  # noqa
         o['gv_crash'] = cls(e)
         return o
     for r in engine.rules:
         t = copy.deepcopy(txn)
         variables = None
         try:
-            variables = engine._evaluate_let_bindings(r, t, gv, ds) if r.let_bindings else gv
+            variables = own_lets(r, t, gv, ds)
             m = expr_parser.matches_transaction(r.match_expr, t, variables, ds)
             c = 'T' if m else 'F'
         except XE:
@@ -209,7 +237,7 @@ def job_rules(job, tmp):
             try:
                 r['oracle'] = engine_oracle(eng_fm, tr, ds)
                 r['tf'] = tf_table(b, [tuple(x) for x in eng_fm.transforms])
-            except AttributeError as e:
+            except AttributeError as e:       # expr_parser API missing: the tie cannot be established
                 r['oracle_error'] = str(e)
         if job.get('norm'):
             r['norm'] = {}
